@@ -1157,3 +1157,103 @@ def alloc_size_bounded(ctx, P, rule="ALLOC-SIZE-BOUNDED"):
                            "`%s` comes straight from a Python argument and sizes `%s` with no upper bound: the product can wrap" % (v, sz[:40]))
     ctx.ob(rule, "instances", n >= 1, "python/_tskitmodule.c", "%d allocations sized by a parsed argument" % n)
     return n
+
+
+def guard_index(ctx, P, scope, rule="GUARD-INDEX", tus=None):
+    """`if (tj < M) { … O[tk] … }`: the counter whose bound is tested is not the counter that subscripts."""
+    ctx.rule(rule, "a bound test `if (c < N)` that guards a subscript by a loop counter guards THAT counter: when the guarded statement "
+                   "subscripts an index array with a different counter (`if (tj < M) right = MIN(right, edges.right[O[tk]])`) and "
+                   "never uses the tested one, the test belongs to the sibling statement and this subscript is unguarded")
+    n = 0
+    for key in (tus or LIB_TUS):
+        tu = P.tus[key]
+        for fn in tu.funcs.values():
+            if fn.body is None or not scope(key, fn.name):
+                continue
+            k = 0
+            for x in walk(fn.body):
+                if x.k != "IfStmt" or (len(x.kids) > 2 and x.kids[2] is not None):
+                    continue
+                c = strip(x.kids[0])
+                if c is None or c.k != "BinaryOperator" or c.op != "<":
+                    continue
+                l = strip(c.kids[0])
+                if l is None or l.k != "DeclRefExpr" or not re.fullmatch(r"t?[jk]|[jk]\d?", l.ref or ""):
+                    continue
+                cv = l.ref
+                subs = [estr(strip(y.kids[1])) for y in walk(x.kids[1]) if y.k == "ArraySubscriptExpr" and strip(y.kids[1]) is not None
+                        and strip(y.kids[1]).k == "DeclRefExpr"]
+                counters = {s_ for s_ in subs if re.fullmatch(r"t?[jk]|[jk]\d?", s_)}
+                if not counters:
+                    continue
+                n += 1
+                uses_cv = any(y.k == "DeclRefExpr" and y.ref == cv for y in walk(x.kids[1]))
+                ok = cv in counters or uses_cv
+                ctx.ob(rule, "%s@%d" % (fn.name, k), ok, tu.loc(x), "`%s < …` guards a subscript by `%s`" % (cv, cv) if ok else
+                       "`if (%s)` guards `%s`, which is subscripted by %s and never uses `%s`" % (
+                           " ".join(tu.src(x.kids[0]).split()), " ".join(tu.src(x.kids[1]).split())[:50], sorted(counters), cv))
+                k += 1
+    return n
+
+
+def append_offset(ctx, P, rule="APPEND-OFFSET"):
+    ctx.rule(rule, "tsk_<T>_table_append_columns writes the new rows AFTER the existing ones: every tsk_memcpy / tsk_memset whose "
+                   "destination is a fixed-width column of self starts at `self-><col> + self->num_rows` (a destination without the "
+                   "offset overwrites the first rows of the table and leaves the appended ones unset)")
+    tu = P.tus["tables"]
+    n = 0
+    for fn in tu.funcs.values():
+        if fn.body is None or not re.fullmatch(r"tsk_\w+_table_append_columns", fn.name):
+            continue
+        k = 0
+        for c in calls(fn.body):
+            if callee(c) not in ("tsk_memcpy", "tsk_memset") or len(c.kids) < 3:
+                continue
+            d = " ".join(tu.src(c.kids[1]).split())
+            m = re.match(r"&?\(?self->(\w+)", d)
+            if not m or m.group(1).endswith("_offset") or re.search(r"self->%s_length|%s_offset" % (m.group(1), m.group(1)), d):
+                continue        # ragged payloads are placed by their own length / offset
+            col = m.group(1)
+            if not re.search(r"self->%s_length\b" % col, tu.src(fn.body)):
+                n += 1
+                ok = "self->num_rows" in d
+                ctx.ob(rule, "%s|%s@%d" % (fn.name, col, k), ok, tu.loc(c), "`%s` starts at the first new row" % d[:50] if ok else
+                       "`%s(%s, …)` has no `+ self->num_rows`: it writes over the existing rows" % (callee(c), d[:50]))
+                k += 1
+    ctx.ob(rule, "instances", n >= 20, "c/tskit/tables.c", "%d fixed-width column writes in append_columns" % n)
+    return n
+
+
+def array_conversion_source(ctx, P, rule="ARRAY-CONVERTED"):
+    """A PyArrayObject* local whose data the module reads comes from a converting constructor, never from a bare cast of the
+    caller's object: the cast keeps whatever dtype, shape and strides the object has."""
+    ctx.rule(rule, "every PyArrayObject* local of the module whose buffer is read (PyArray_DATA / PyArray_DIMS / PyArray_DIM) is "
+                   "assigned only from a conversion that fixes dtype and layout (PyArray_FROMANY / PyArray_FromAny / "
+                   "PyArray_SimpleNew… / a module helper), never from `(PyArrayObject *) <object>` on a fast path: a callback that "
+                   "returns an int64 array would have its bytes read as doubles")
+    tu = P.tus["module"]
+    n = 0
+    for fn in tu.funcs.values():
+        if fn.body is None:
+            continue
+        locs = {d.name for d in walk(fn.body) if d.k == "VarDecl" and d.name and (d.ty or "") == "PyArrayObject *"}
+        if not locs:
+            continue
+        src = tu.src(fn.body)
+        read = {v for v in locs if re.search(r"PyArray_(DATA|DIMS|DIM|GETPTR\d|SHAPE)\(\s*%s\b" % re.escape(v), src)}
+        for x in walk(fn.body):
+            if x.k == "BinaryOperator" and x.op == "=":
+                l = strip(x.kids[0])
+                if l is None or l.k != "DeclRefExpr" or l.ref not in read:
+                    continue
+                r = strip(x.kids[1])
+                if r is None or (r.k == "DeclRefExpr" and r.ref == "NULL") or estr(r) in ("NULL", "((void *)0)"):
+                    continue
+                n += 1
+                ok = r.k == "CallExpr" or (r.k == "DeclRefExpr" and r.ref in locs)
+                ctx.ob(rule, "%s|%s@%d" % (fn.name, l.ref, n), ok, tu.loc(x),
+                       "`%s` comes from %s" % (l.ref, (callname(r) or callee(r) or estr(r))[:40]) if ok else
+                       "`%s = %s` takes the caller's object as it is: its dtype and layout are not what the reads below assume"
+                       % (l.ref, " ".join(tu.src(x.kids[1]).split())[:50]))
+    ctx.ob(rule, "instances", n >= 60, "python/_tskitmodule.c", "%d assignments to array locals whose buffers are read" % n)
+    return n
